@@ -20,9 +20,10 @@ def load_corpus(name):
 
 def make_task(case, defaults):
     t = {"key": case["id"], "kind": case.get("kind", defaults.get("kind", "stateless")), "builds": case.get("builds", defaults.get("builds", BUILDS2)), "modes": case.get("modes", defaults.get("modes", ["full", "min"]))}
-    for k in ("stmts", "twin", "programs", "outputs", "check_entities", "params", "files", "rename"):
+    for k in ("stmts", "twin", "programs", "outputs", "check_entities", "files", "rename"):
         if k in case:
             t[k] = case[k]
+    t.update(case.get("params", {}))
     for k, v in defaults.items():
         t.setdefault(k, v)
     return t
@@ -53,7 +54,8 @@ def run_cases(run: Run, cases, defaults, workers=None):
             for f in r["findings"]:
                 replay = {k: v for k, v in f.items() if k not in ("key", "what")}
                 replay["case"] = t["key"]
-                replay["replay_cmd"] = f"cd /verif && .venv/bin/python -m vf.replay {run.prop} '{f['key']}'"
+                replay["task"] = t
+                replay["replay_cmd"] = "cd /verif && .venv/bin/python -m vf.replay <this file>"
                 run.violation(f["key"], f["what"], replay)
     finally:
         comp.close()
